@@ -123,7 +123,9 @@ impl Message {
                 let services = services.unwrap();
                 Ok(Message::Services(services))
             }
-            10 => Ok(Message::GhostChain(GhostChainSync::deserialize(buffer))),
+            10 => Ok(Message::GhostChain(GhostChainSync::deserialize_checked(
+                buffer,
+            )?)),
             11 => {
                 if buffer.len() != 72 {
                     warn!(
